@@ -153,6 +153,17 @@ pub fn heartbeat(label: impl FnOnce() -> String) {
     });
 }
 
+/// Cheap progress tick (no label change): call every few cases inside a chunk, so that only a *single
+/// subject call* that makes no progress for the whole limit is ever reported, however loaded the machine is.
+#[inline]
+pub fn tick() {
+    MY_BEAT.with(|b| {
+        if let Some(beat) = *b.borrow() {
+            beat.stamp_ms.store(now_ms(), Ordering::Relaxed);
+        }
+    });
+}
+
 /// Marks the calling worker as idle (finished), so it is not reported.
 pub fn heartbeat_done() {
     MY_BEAT.with(|b| {
